@@ -1,2 +1,17 @@
 #!/bin/sh
-exit 0
+# Build everything from files on disk: regenerate Gen from /repo, compile the whole Coq development (full .vo),
+# extract the model, build the OCaml driver.
+set -e
+cd "$(dirname "$0")"
+/venv/bin/python - <<'PY'
+import sys
+sys.path.insert(0, ".")
+from harness import framework as fw
+b = fw.Build()
+fw.build_model(b)
+if not b.model_ok:
+    print(b.model_msg)
+    sys.exit(1)
+PY
+cd coq && timeout 3000 make -j16 > /dev/null
+echo "setup ok"
